@@ -298,6 +298,12 @@ def _drive_model(mon, case, dicts, label=""):
         warnings.simplefilter("ignore")
         if case.get("destructive"):
             lm = mon.lib("construct", LM, V, sos, arg, True)
+        elif (V + T + 2 * B) % 5 == 3:
+            # the table handed over under the keyword's former name (deprecated, still accepted)
+            lm = mon.lib("construct", lambda: LM(V, sos, prob_list=arg))
+            mon.stat("constructed_with_deprecated_keyword")
+        elif (V + T + 2 * B) % 5 == 1:
+            lm = mon.lib("construct", lambda: LM(vocab_size=V, sos=sos, prob_dicts=arg))
         else:
             lm = mon.lib("construct", LM, V, sos, arg)
     _describe_model(mon, lm, case, sizes)
